@@ -44,6 +44,12 @@ def _fix_param_names():
 
 _fix_param_names()
 
+# valid_date_time is verified against the meaning of "parsable" (the accepted spellings, DEF-TIME in c_externals)
+from pyvc.spec import CONTRACTS as _C
+_c = _C[V + 'valid_date_time']
+from pyvc import types as _Ty
+_c.types = {'item': _Ty.parse_type('Opt(Str)')}
+_c.raises = dict(_c.raises, **{'NotValid': "not conforms('valid_date_time', item)"})
 contract(V + 'validate_value_type', inline=True)
 contract(V + 'valid', inline=True)
 contract(V + '_valid_instance', inline=True)
@@ -145,6 +151,8 @@ for _name, _cond in [('valid_integer', 'True'), ('valid_non_negative_integer', '
     axiom('conforms', 'DEF-conforms[%s]' % _name,
           "forall(lambda v: conforms(%r, v) == (%s and (%s)), 'Val')" % (_name, _PARSES, _cond), modname='saml2_tophat.validate')
 INTEGER_VALIDATORS = [V + n for n in ('valid_integer', 'valid_non_negative_integer', 'valid_positive_integer', 'valid_unsigned_byte')]
+axiom('conforms', 'DEF-conforms[valid_date_time]',
+      "forall(lambda v: conforms('valid_date_time', v) == (not truthy(v) or (is_str(v) and parsable(v))), 'Val')", modname='saml2_tophat.validate')
 axiom('conforms', 'DEF-conforms[valid_boolean]',
       "forall(lambda v: conforms('valid_boolean', v) == (is_str(v) and (lower(str_of(v)) == 'true' or lower(str_of(v)) == 'false' or "
       "lower(str_of(v)) == '0' or lower(str_of(v)) == '1')), 'Val')", modname='saml2_tophat.validate')
